@@ -1276,7 +1276,130 @@ class DefaultRendering(Suite):
         return run_render_case(case)
 
 
-SUITES = [HandlerChoice(), DefaultRendering()]
+# ================================================================= suite C: registrations interleaved with requests
+
+
+class _HBase(Exception):
+    pass
+
+
+class _HMid(_HBase):
+    pass
+
+
+class _HLeaf(_HMid):
+    pass
+
+
+class _HSide(Exception):
+    pass
+
+
+class _HBoth(_HLeaf, _HSide):
+    pass
+
+
+class _HNotFound(falcon.HTTPNotFound):
+    pass
+
+
+_H_CLASSES = {'Base': _HBase, 'Mid': _HMid, 'Leaf': _HLeaf, 'Side': _HSide, 'Both': _HBoth, 'Exception': Exception,
+              'HTTPError': falcon.HTTPError, 'HTTPNotFound': falcon.HTTPNotFound, 'MyNotFound': _HNotFound}
+
+
+class RegistrationHistory(Suite):
+    """One app instance lives through a history of add_error_handler(class, handler_k) calls INTERLEAVED with requests
+    whose responder raises an instance of a chosen class (5-class hierarchy with multiple inheritance, plus Exception /
+    HTTPError / HTTPNotFound and a subclass): after every registration the very next request must already be served by
+    the handler the current registrations designate (first registered class on the MRO, latest registration winning;
+    the built-in rendering otherwise), even for exception types that were served before the registration changed."""
+
+    name = 'registration_history'
+    budget = {'quick': 2500, 'thorough': 60000}
+
+    def strategy(self, tier):
+        cls = st.sampled_from(sorted(_H_CLASSES))
+        op = st.one_of(st.tuples(st.just('reg'), cls, st.integers(0, 3)), st.tuples(st.just('raise'), cls),
+                       st.tuples(st.just('raise'), cls))
+        return st.builds(lambda stack, ops: {'stack': stack, 'ops': [list(o) for o in ops]},
+                         st.sampled_from(['wsgi', 'asgi']), st.lists(op, min_size=2, max_size=12))
+
+    def run(self, case):
+        stack = case['stack']
+        box = {}
+
+        def make_handler(k):
+            if stack == 'wsgi':
+                def handler(req, resp, ex, params):
+                    resp.status = falcon.HTTP_299 if hasattr(falcon, 'HTTP_299') else 299
+                    resp.text = 'handler-%d:%s' % (k, type(ex).__name__)
+            else:
+                async def handler(req, resp, ex, params):
+                    resp.status = 299
+                    resp.text = 'handler-%d:%s' % (k, type(ex).__name__)
+            return handler
+
+        handlers = [make_handler(k) for k in range(4)]
+        if stack == 'wsgi':
+            class R(object):
+                def on_get(self, req, resp):
+                    raise box['exc']
+            app = falcon.App()
+        else:
+            class R(object):
+                async def on_get(self, req, resp):
+                    raise box['exc']
+            app = falcon.asgi.App()
+        app.add_route('/', R())
+        model = {}
+        served = set()
+        rereg_after_served = False
+        n_raise = 0
+        for i, op in enumerate(case['ops']):
+            c = _H_CLASSES[op[1]]
+            if op[0] == 'reg':
+                app.add_error_handler(c, handlers[op[2]])
+                if c in model and any(c in t.__mro__ for t in served):
+                    rereg_after_served = True
+                model[c] = op[2]
+                continue
+            n_raise += 1
+            exc = c() if not issubclass(c, falcon.HTTPError) or c in (falcon.HTTPNotFound, _HNotFound) else c(falcon.HTTP_409)
+            box['exc'] = exc
+            served.add(c)
+            if stack == 'wsgi':
+                res = W.call(app, W.build_environ('GET', '/'))
+            else:
+                res = A.call(app, A.build_scope('GET', '/'))
+            if res.error is not None:
+                raise Violation('exception_escaped', 'ops[:%d]=%r: %r escaped the app callable' % (i + 1, case['ops'][:i + 1], res.error))
+            chosen = None
+            for k in c.__mro__:
+                if k in model:
+                    chosen = model[k]
+                    break
+                if k in (falcon.HTTPError, Exception):
+                    break  # built-in handlers are registered for these classes
+            if chosen is not None:
+                want = (299, ('handler-%d:%s' % (chosen, c.__name__)).encode())
+                got = (res.code, res.body)
+            else:
+                code = 404 if issubclass(c, falcon.HTTPNotFound) else 409 if issubclass(c, falcon.HTTPError) else 500
+                want = (code, None)
+                got = (res.code, None)
+            if got != want:
+                raise Violation('stale_or_wrong_handler', '%s ops[:%d]=%r: raising %s gave (status, body) %r, the current registrations %r designate %r'
+                                % (stack, i + 1, case['ops'][:i + 1], c.__name__, (res.code, res.body[:60]),
+                                   sorted((k.__name__, v) for k, v in model.items()), want))
+        labels = [stack]
+        if rereg_after_served:
+            labels.append('re-registration_after_type_was_served')
+        if n_raise >= 2:
+            labels.append('>=2_requests')
+        return Info(rereg_after_served and n_raise >= 2, labels)
+
+
+SUITES = [HandlerChoice(), DefaultRendering(), RegistrationHistory()]
 
 def render_body_dropped(suite_name, case, violation):
     """Finding F25: whatever the error handling composes for an exception raised while the body is rendered,
